@@ -106,6 +106,12 @@ func (db *DB) Close() {
 	defer atomic.StoreUint32(&db.state, uint32(StateClosed))
 	db.closeC <- struct{}{}
 
+	// wait until the flusher has drained its queue: the frozen memtables are older than the
+	// active one and must reach the tables first. A wal left behind by a crash is replayed
+	// into the memtable, which reads consult before the tables, so its data must never be
+	// older than what a table already holds.
+	<-db.closed
+
 	mt := db.memtable
 	mt.freeze()
 	if mt.size() > 0 {
@@ -115,8 +121,6 @@ func (db *DB) Close() {
 			db.logger.Warnf("failed to delete immutable wal file: %v", err)
 		}
 	}
-
-	<-db.closed
 }
 
 func (db *DB) View(fn TxnFunc) error {
